@@ -373,6 +373,15 @@ impl Ctx {
         let mut out = Vec::new();
         for (k, s) in ss.iter().enumerate() {
             match s {
+                // `if !COND { return; } REST`  ==  `if COND { REST }`   (early-return guard, constant condition)
+                syn::Stmt::Expr(Expr::If(i), _)
+                    if i.attrs.is_empty() && i.else_branch.is_none() && Self::is_bare_return(&i.then_branch) && matches!(strip(&i.cond), Expr::Unary(u) if matches!(u.op, syn::UnOp::Not(_))) =>
+                {
+                    if let Expr::Unary(u) = strip(&i.cond) {
+                        out.push(Stmt::IfConst(self.bexpr(&u.expr), Box::new(self.stmts(&ss[k + 1..]))));
+                        return Ctx::seq(out);
+                    }
+                }
                 syn::Stmt::Expr(e, _) => out.push(self.expr(e)),
                 syn::Stmt::Local(l) => {
                     // let mut it = SRC; while let Some(p) = it.next() { body }   ==  for p in SRC { body }
@@ -403,6 +412,14 @@ impl Ctx {
             }
         }
         Ctx::seq(out)
+    }
+
+    fn is_bare_return(b: &Block) -> bool {
+        b.stmts.len() == 1
+            && match &b.stmts[0] {
+                syn::Stmt::Expr(Expr::Return(r), _) => r.expr.is_none() && r.attrs.is_empty(),
+                _ => false,
+            }
     }
 
     fn while_next(&self, l: &syn::Local, next: Option<&syn::Stmt>) -> Option<Stmt> {
